@@ -1,0 +1,62 @@
+//go:build verif
+
+package autodiff
+
+// Contracts for sparse vectors (C11: map and ordered index stay coherent; reads agree with the dense model).
+// The ordered index is used through an abstract, trusted contract of AvlTree.Insert/Delete (set semantics
+// in terms of the search-path membership function of zz_contracts_avl_verif.go).
+
+//@ props C11
+
+//@ func (*AvlTree).Insert
+//@   trusted
+//@   requires obj != nil
+//@   ensures forall k int :: member(obj.Root, k) <==> (old(member(obj.Root, k)) || k == i)
+//@   ensures result <==> !old(member(obj.Root, i))
+//@   ensures forall t *AvlTree, k int :: t != obj && t != nil ==> (member(t.Root, k) <==> old(member(t.Root, k)))
+//@   modifies AvlTree.Root@{obj}, AvlNode.Left, AvlNode.Right, AvlNode.Value, AvlNode.Balance, AvlNode.Parent, AvlNode.Deleted
+//@ func (*AvlTree).Delete
+//@   trusted
+//@   requires obj != nil
+//@   ensures forall k int :: member(obj.Root, k) <==> (old(member(obj.Root, k)) && k != i)
+//@   ensures result <==> old(member(obj.Root, i))
+//@   ensures forall t *AvlTree, k int :: t != obj && t != nil ==> (member(t.Root, k) <==> old(member(t.Root, k)))
+//@   modifies AvlTree.Root@{obj}, AvlNode.Left, AvlNode.Right, AvlNode.Value, AvlNode.Balance, AvlNode.Parent, AvlNode.Deleted
+
+//@ for $V,$S,$F in (SparseFloat64Vector,Float64,float64)
+//@ spec RI_$V(v *$V) bool =
+//@   v != nil && v.n >= 0 && v.values != nil &&
+//@   (forall k int :: has(v.values, k) <==> member(v.Root, k)) &&
+//@   (forall k int :: has(v.values, k) ==> 0 <= k && k < v.n && v.values[k].ptr != nil) &&
+//@   (forall k int, l int :: has(v.values, k) && has(v.values, l) && k != l ==> v.values[k].ptr != v.values[l].ptr)
+//@ spec elem_$V(v *$V, i int) real = ite(has(v.values, i), deref(v.values[i].ptr), 0)
+
+//@ func (*$V).Dim
+//@   requires obj != nil
+//@   ensures result == obj.n
+//@   pure
+
+//@ func (*$V).AT [also: (*$V).At]
+//@   requires RI_$V(obj)
+//@   panics_when i < 0 || i >= obj.n
+//@   ensures RI_$V(obj) && obj.n == old(obj.n) && isa($S, result) && as($S, result).ptr != nil && has(obj.values, i) && obj.values[i] == as($S, result)
+//@   ensures forall k int :: has(obj.values, k) <==> (old(has(obj.values, k)) || k == i)
+//@   ensures forall k int :: elem_$V(obj, k) == old(elem_$V(obj, k))
+//@   ensures forall k int :: old(has(obj.values, k)) ==> obj.values[k] == old(obj.values[k])
+//@   modifies map[int]$S@{obj.values}, AvlTree.Root, AvlNode.Left, AvlNode.Right, AvlNode.Value, AvlNode.Balance, AvlNode.Parent, AvlNode.Deleted
+
+//@ func (*$V).AT_
+//@   requires RI_$V(obj)
+//@   panics_when i < 0 || i >= obj.n
+//@   ensures has(obj.values, i) ==> result == obj.values[i]
+//@   ensures !has(obj.values, i) ==> result.ptr == nil
+//@   pure
+
+//@ func (*$V).Swap
+//@   requires RI_$V(obj)
+//@   panics_when i < 0 || i >= obj.n || j < 0 || j >= obj.n
+//@   ensures RI_$V(obj) && obj.n == old(obj.n)
+//@   ensures elem_$V(obj, i) == old(elem_$V(obj, j)) && elem_$V(obj, j) == old(elem_$V(obj, i))
+//@   ensures forall k int :: k != i && k != j ==> elem_$V(obj, k) == old(elem_$V(obj, k))
+//@   modifies map[int]$S@{obj.values}, AvlTree.Root, AvlNode.Left, AvlNode.Right, AvlNode.Value, AvlNode.Balance, AvlNode.Parent, AvlNode.Deleted
+//@ end
